@@ -118,6 +118,43 @@ Proof.
   lra.
 Qed.
 
+(* the same at ANY real abscissa X: the binary64 segment is within err_0 + err_1*|X| of the exact segment *)
+Theorem C06_segment_float_any : forall (x0 y0 x1 y1 : F) (X : R),
+  let env := [x0; y0; x1; y1] in
+  safe_run env (lin_e 1) -> safe_run env (lin_e 2) ->
+  let c0 := B2R (fev env (lin_e 1)) in let c1 := B2R (fev env (lin_e 2)) in
+  Rabs ((c0 + c1 * X) - (seg_c0 (B2R x0) (B2R y0) (B2R x1) (B2R y1) + seg_c1 (B2R x0) (B2R y0) (B2R x1) (B2R y1) * X))
+  <= err_run env (lin_e 1) + err_run env (lin_e 2) * Rabs X.
+Proof.
+  intros x0 y0 x1 y1 X env S1 S2 c0 c1.
+  destruct (eval_running env (lin_e 1) S1) as [_ E1]. destruct (eval_running env (lin_e 2) S2) as [_ E2].
+  change (rval env (lin_e 1)) with (seg_c0 (B2R x0) (B2R y0) (B2R x1) (B2R y1)) in E1.
+  change (rval env (lin_e 2)) with (seg_c1 (B2R x0) (B2R y0) (B2R x1) (B2R y1)) in E2.
+  fold c0 in E1. fold c1 in E2.
+  replace (c0 + c1 * X - (seg_c0 (B2R x0) (B2R y0) (B2R x1) (B2R y1) + seg_c1 (B2R x0) (B2R y0) (B2R x1) (B2R y1) * X))
+    with ((c0 - seg_c0 (B2R x0) (B2R y0) (B2R x1) (B2R y1)) + (c1 - seg_c1 (B2R x0) (B2R y0) (B2R x1) (B2R y1)) * X) by ring.
+  eapply Rle_trans; [apply Rabs_triang|]. rewrite Rabs_mult.
+  assert (Rabs (c1 - seg_c1 (B2R x0) (B2R y0) (B2R x1) (B2R y1)) * Rabs X <= err_run env (lin_e 2) * Rabs X)
+    by (apply Rmult_le_compat_r; [apply Rabs_pos|exact E2]).
+  lra.
+Qed.
+(* hence, for knots at least machine epsilon apart: through the right knot, and the straight-line interpolant at every x,
+   within that bound *)
+Theorem C06_segment_right_float : forall (x0 y0 x1 y1 : F),
+  let env := [x0; y0; x1; y1] in
+  safe_run env (lin_e 1) -> safe_run env (lin_e 2) -> eps <= B2R x1 - B2R x0 ->
+  let c0 := B2R (fev env (lin_e 1)) in let c1 := B2R (fev env (lin_e 2)) in
+  Rabs ((c0 + c1 * B2R x1) - B2R y1) <= err_run env (lin_e 1) + err_run env (lin_e 2) * Rabs (B2R x1) /\
+  forall x : R, Rabs ((c0 + c1 * x) - (B2R y0 + (B2R y1 - B2R y0) / (B2R x1 - B2R x0) * (x - B2R x0)))
+                <= err_run env (lin_e 1) + err_run env (lin_e 2) * Rabs x.
+Proof.
+  intros x0 y0 x1 y1 env S1 S2 He c0 c1. split.
+  - destruct (C06_segment_right _ (B2R y0) _ (B2R y1) He) as [_ R]. rewrite <- R.
+    apply (C06_segment_float_any x0 y0 x1 y1 (B2R x1) S1 S2).
+  - intros x. rewrite <- (C06_interpolant _ (B2R y0) _ (B2R y1) x He).
+    apply (C06_segment_float_any x0 y0 x1 y1 x S1 S2).
+Qed.
+
 (* non-vacuity: the knots (0.3, 1.0), (2.1, 3.6) satisfy the hypotheses of C06_segment_float *)
 Example C06_float_hypotheses_hold :
   let env := map of_bits [4599075939470750515; 4607182418800017408; 4611911198408756429; 4615288898129284301]%Z in safe_run env (lin_e 1) /\ safe_run env (lin_e 2).
